@@ -153,6 +153,18 @@ Proof.
       split; [lia|]. left. nia.
 Qed.
 
+(* a range with a width takes the scaling path (the zero-width branch of _data2coord is not taken) *)
+Lemma data2coord_width : forall vals lo hi n, hi - lo <> 0 ->
+    data2coord vals lo hi n =
+    map (fun v => match v with
+                  | Some v => Some (data2coord1 v lo (hi - lo) n)
+                  | None => None
+                  end) vals.
+Proof.
+  intros vals lo hi n H. unfold data2coord.
+  destruct (Z.eqb_spec (hi - lo) 0) as [E|E]; [contradiction|reflexivity].
+Qed.
+
 (* a row answered by the model: its distance is the curve position of the
    cell (cx, cy), each coordinate being the index of the grid cell containing
    the centre of the row's bounding box (ranges with positive width) *)
@@ -170,7 +182,8 @@ Proof.
   unfold hd1 in H. fold xr yr in H.
   destruct xr as [xlo xhi]. destruct yr as [ylo yhi]. cbn [fst snd] in *.
   destruct (_ && _) eqn:Hreg; [|discriminate].
-  cbn [bx0 bx1 by0 by1 fadd fhalf data2coord map] in H. inversion H; subst; clear H.
+  cbn [bx0 bx1 by0 by1 fadd fhalf] in H.
+  rewrite !data2coord_width in H by lia. cbn [map] in H. inversion H; subst; clear H.
   apply andb_prop in Hreg. destruct Hreg as [Hreg Hvy].
   apply andb_prop in Hreg. destruct Hreg as [_ Hvx].
   cbn [bx0 bx1 by0 by1 regime_val] in Hvx, Hvy.
